@@ -81,6 +81,7 @@ type gctx struct {
 	loop     int
 	yieldInt bool // the value of a yield expression is an integer (driver-supplied)
 	inner    int  // nesting of inner generators
+	badAwait bool // async case that may await a promise whose constructor getter throws (open finding C09-N8: kept rare)
 }
 
 type gen struct {
@@ -106,6 +107,10 @@ func (g *gen) intExp(c gctx, d int) *Exp {
 			return &Exp{K: "const", Z: int64(r.Intn(9) + 1)}
 		}
 		return &Exp{K: "var", X: r.Intn(3)}
+	}
+	if c.async && c.inner == 0 && c.badAwait && r.Chance(8) {
+		g.tag("await-bad-promise")
+		return &Exp{K: "awaitbad", Z: int64(40 + r.Intn(9))}
 	}
 	switch r.Pick(3, 3, 3, 2, 1, 6) {
 	case 0:
@@ -335,7 +340,7 @@ func genCase(r *vh.Rng) (Case, []string) {
 	c.Cap = r.Chance(60)
 	if r.Chance(12) {
 		c.Kind = "async"
-		ctx := gctx{top: true, async: true, yieldInt: true}
+		ctx := gctx{top: true, async: true, yieldInt: true, badAwait: r.Chance(6)}
 		c.Body = g.block(ctx, 3, 2+r.Intn(3))
 		g.budget = 3 + r.Intn(5)
 		c.Body2 = g.block(ctx, 2, 1+r.Intn(3))
@@ -495,6 +500,8 @@ func (p *printer) exp(e *Exp, inner bool) string {
 		return "(yield " + p.exp(e.A, inner) + ")"
 	case "ystar":
 		return "(yield* " + p.src(e.S, inner) + ")"
+	case "awaitbad":
+		return fmt.Sprintf("(await BAD(%d))", e.Z)
 	}
 	panic("bad exp " + e.K)
 }
@@ -625,6 +632,7 @@ func genScript(c Case) string {
 		sb.WriteString(`function DRV(id, v) { LOG([60, v]); var h = HIST[id], i = IDX[id]++;
   if (i < h.length) return h[i][0] === "throw" ? Promise.reject(h[i][1]) : Promise.resolve(h[i][1]);
   return Promise.resolve(0); }
+function BAD(n) { LOG([61, n]); var p = Promise.resolve(1); Object.defineProperty(p, "constructor", { get() { throw n; } }); return p; }
 `)
 		for i, b := range []*Stmt{c.Body, c.Body2} {
 			id := []string{"A", "B"}[i]
@@ -660,9 +668,9 @@ func stepCalls(c Case) string {
 
 func coqZ(z int64) string {
 	if z < 0 {
-		return fmt.Sprintf("(%d)%%Z", z)
+		return fmt.Sprintf("(%d)", z)
 	}
-	return fmt.Sprintf("%d%%Z", z)
+	return fmt.Sprintf("%d", z)
 }
 
 func coqExp(e *Exp) string {
@@ -687,6 +695,8 @@ func coqExp(e *Exp) string {
 		return "(EYield " + coqExp(e.A) + ")"
 	case "ystar":
 		return "(EYieldStar " + coqSrc(e.S) + ")"
+	case "awaitbad":
+		return "(EAwaitBad " + coqZ(e.Z) + ")"
 	}
 	panic("bad exp")
 }
@@ -785,7 +795,10 @@ func coqCmds(ops []Cmd) string {
 	for _, o := range ops {
 		xs = append(xs, coqCmd(o))
 	}
-	return "(" + vh.CoqList(xs) + " : list (cmd val))"
+	if len(xs) == 0 {
+		return "(@nil (cmd val))"
+	}
+	return vh.CoqList(xs)
 }
 
 // a value as canonicalised by R() in the prelude
@@ -800,7 +813,7 @@ func coqVal(x interface{}) string {
 		case "TE":
 			return "VTypeErr"
 		}
-		return "(VObj [VInt (-999)%Z])" // something the model never produces
+		return "(VObj [VInt (-999)])" // something the model never produces
 	case map[string]interface{}:
 		for k, ctor := range map[string]string{"a": "VArr", "o": "VObj", "t": "VTpl"} {
 			if l, ok := v[k].([]interface{}); ok {
@@ -808,7 +821,7 @@ func coqVal(x interface{}) string {
 			}
 		}
 	}
-	return "(VObj [VInt (-998)%Z])"
+	return "(VObj [VInt (-998)])"
 }
 
 func coqVals(l []interface{}) string {
@@ -870,7 +883,7 @@ func runCase(c Case, tags []string) vh.Record {
 		fin := func(id string) string {
 			f := res.Fin[id]
 			if len(f) != 2 {
-				return "(ARejected (VObj [VInt (-997)%Z]))" // still pending: never matches
+				return "(ARejected (VObj [VInt (-997)]))" // still pending: never matches
 			}
 			if f[0] == "f" {
 				return "(AFulfilled " + coqVal(f[1]) + ")"
